@@ -115,6 +115,15 @@ func runCase(t *testing.T, c *Case) (res *RunResult, w *World) {
 			if c.Oracle != nil {
 				c.Oracle(w, c)
 			}
+			if os.Getenv("VERIF_DEBUG") != "" {
+				fmt.Fprintf(os.Stderr, "---- case: %s\n---- log:\n%s\n", c.Summary, w.LogBuf.String())
+				for _, cl := range w.Clients {
+					fmt.Fprintf(os.Stderr, "client %s: hs=%v proto=%q errs=%v readerr=%q\n", cl.Name, cl.HandshakeOK, cl.NegProto, cl.StepErrs, cl.ReadErr)
+					for _, rf := range cl.Recv {
+						fmt.Fprintf(os.Stderr, "   recv@%d %s\n", rf.Step, rf.F.String())
+					}
+				}
+			}
 			res.Digest = w.Digest()
 			res.Sched = w.SchedHash()
 			res.Steps = w.Step
@@ -144,6 +153,26 @@ func runCase(t *testing.T, c *Case) (res *RunResult, w *World) {
 				}
 				w.Probes["hs_err: "+e]++
 			}
+		}
+		for _, cl := range w.Clients {
+			if cl.GoAway != nil && len(cl.GoAway.Payload) >= 8 {
+				code := uint32(cl.GoAway.Payload[4])<<24 | uint32(cl.GoAway.Payload[5])<<16 | uint32(cl.GoAway.Payload[6])<<8 | uint32(cl.GoAway.Payload[7])
+				w.Probes[fmt.Sprintf("goaway_code_%d", code)]++
+			}
+			for _, st := range cl.Streams {
+				if st.RST {
+					w.Probes[fmt.Sprintf("rst_code_%d", st.RSTCode)]++
+				}
+			}
+			for _, e := range cl.StepErrs {
+				if len(e) > 70 {
+					e = e[:70]
+				}
+				w.Probes["steperr: "+e]++
+			}
+		}
+		if w.Stuck {
+			w.Probes["stuck"]++
 		}
 		w.Probes["backend_requests"] += len(w.BackReqs)
 		res.Violations = w.Violations
